@@ -64,6 +64,7 @@ type Stream struct {
 	// NoRecord turns recording off (for bulk data draws whose values are
 	// reconstructed from a sub-seed instead).
 	NoRecord bool
+	draws    int64
 }
 
 func splitmix(x *uint64) uint64 {
@@ -131,6 +132,10 @@ func (st *Stream) next() uint64 {
 
 // Draw returns a value in [0, n) (n > 0) or a raw 64-bit value (n == 0).
 func (st *Stream) Draw(n uint64, label string) uint64 {
+	st.draws++
+	if st.draws > 20_000_000 {
+		panic("verifsim: choice stream " + st.Name + " runaway (more than 2e7 draws): generator loop does not terminate")
+	}
 	var v uint64
 	if st.replayM {
 		if st.pos < len(st.replay) {
